@@ -1,0 +1,27 @@
+//go:build verif
+
+// Contract of the relationship-id allocator of the main document part (properties C02, C10, C11),
+// read by /verif/engine (govc). Comments only: with or without the build tag this file adds no code
+// to the package. Shared verbatim by the header/footer and the image contracts.
+package document
+
+// relIDFree(rs, id): no relationship of the list carries the id.
+//@ spec relIDFree(rs []Relationship, id string) bool = forall j int :: {rs[j]} 0 <= j && j < len(rs) ==> rs[j].ID != id
+
+// The allocator returns an id that no relationship of the document relationship list carries, whatever ids
+// the list holds (non-contiguous, any order, not the library's own numbering), and never "rId1", which
+// serializeDocumentRelationships gives to the styles relationship on save. It writes nothing.
+// (Partial correctness: termination of the outer search loop is a pigeonhole argument and is not shown.)
+//@ func (*Document).nextDocumentRelationshipID
+//@ props C02, C10, C11
+//@ requires d != nil && d.documentRelationships != nil
+//@ modifies nothing
+//@ ensures relIDFree(d.documentRelationships.Relationships, result)
+//@ ensures exists k int :: k >= 2 && result == sprintf("rId%d", k)
+//@ ensures result != "rId1"
+//@ loop 1
+//@   invariant unchangedHeap() && n >= 2
+//@ loop 2
+//@   invariant 0 <= #i && #i <= len(d.documentRelationships.Relationships) && unchangedHeap()
+//@   invariant forall j int :: 0 <= j && j < #i ==> d.documentRelationships.Relationships[j].ID != id
+//@   decreases len(d.documentRelationships.Relationships) - #i
